@@ -1,4 +1,317 @@
-(** C14 — placeholder while the proofs are being built. *)
-From JSL Require Import Base Instance Dstate Filters World Views ViewsSpec.
-Theorem C14_placeholder : True. Proof. exact Logic.I. Qed.
-Print Assumptions C14_placeholder.
+(** C14 — instances and schedules survive serialisation; views match.
+    Statements only; proofs are in proofs/ViewsProofs.v, FjsInv.v, FjsStep.v,
+    FjsRebuild.v, FjsIff.v, SchedDict.v. The model of the library code is
+    model/Views.v ("…_code" = the view as written, possibly raising), the
+    definitions are in spec/ViewsSpec.v.
+
+    Hypotheses used below (all spelled out in the statements):
+    [has_machines I]   every operation lists at least one machine;
+    [single_machine I] every operation lists exactly one machine (non-flexible);
+    [valid I]          durations >= 0.
+    No bound on the number of jobs, machines, operations or requests anywhere.
+
+    IMMUTABILITY of the instance is true by construction in a functional
+    model; no theorem about it would mean anything. That clause of C14 is
+    decided by the harness alone (deep snapshots), see harness/c14.py. *)
+From JSL Require Import Base Instance Dstate Filters World Observers Feasible DispatchFun Inv Run
+  Views ViewsSpec ViewsProofs FjsInv FjsStep FjsRebuild FjsIff SchedDict.
+From Coq Require Import Permutation.
+
+(** * 1. Numbering: job id, position, dense job-major operation id *)
+
+Theorem C14_operation_attributes :
+  forall I : instance,
+    set_operation_attributes I =
+    map (fun j => map (fun p => mkattrs j p (op_id I j p)) (seq 0 (length (get_job I j)))) (seq 0 (length I)).
+Proof. exact set_operation_attributes_spec. Qed.
+Print Assumptions C14_operation_attributes.
+
+(** [op_id I j p] = (sum of the lengths of the jobs before j) + p by definition
+    (Instance.v); listed job by job the ids are 0, 1, …, N-1. *)
+Theorem C14_op_id_dense : forall I : instance, dense_job_major I (op_id I).
+Proof. exact op_id_dense. Qed.
+Print Assumptions C14_op_id_dense.
+
+Theorem C14_op_id_bijective :
+  forall I : instance,
+    (forall j p o j' p' o', get_op I j p = Some o -> get_op I j' p' = Some o' ->
+                            op_id I j p = op_id I j' p' -> (j, p) = (j', p')) /\
+    (forall j p o, get_op I j p = Some o -> (op_id I j p < num_ops I)%nat) /\
+    (forall n, (n < num_ops I)%nat -> exists j p o, get_op I j p = Some o /\ op_id I j p = n).
+Proof. intros I. split; [exact (op_id_injective I)|split; [exact (op_id_range I)|exact (op_id_onto I)]]. Qed.
+Print Assumptions C14_op_id_bijective.
+
+(** * 2. Counts *)
+
+Theorem C14_num_machines :
+  forall I : instance,
+    is_num_machines I (num_machines I) /\
+    (has_machines I -> num_machines_code I = inl (num_machines I)).
+Proof. intros I. split; [exact (num_machines_spec I)|exact (num_machines_code_spec I)]. Qed.
+Print Assumptions C14_num_machines.
+
+Theorem C14_num_operations : forall I : instance, num_operations_code I = num_ops I.
+Proof. exact num_operations_code_spec. Qed.
+Print Assumptions C14_num_operations.
+
+Theorem C14_is_flexible : forall I : instance, is_flexible I = true <-> flexible I.
+Proof. exact is_flexible_spec. Qed.
+Print Assumptions C14_is_flexible.
+
+(** * 3. Matrices and padded arrays ([None] = NaN) *)
+
+Theorem C14_machines_matrix :
+  forall I : instance,
+    (is_flexible I = true ->
+     machines_matrix_code I = inl (map (map (fun o => MList (machines o))) I)) /\
+    (single_machine I ->
+     machines_matrix_code I = inl (map (map (fun o => MInt (machine_of o))) I)).
+Proof. intros I. split; [exact (machines_matrix_flexible I)|exact (machines_matrix_single_machine I)]. Qed.
+Print Assumptions C14_machines_matrix.
+
+Theorem C14_durations_matrix_array :
+  forall I : instance, I <> [] -> durations_matrix_array_code I = inl (durations_array_spec I).
+Proof. exact durations_matrix_array_spec. Qed.
+Print Assumptions C14_durations_matrix_array.
+
+Theorem C14_machines_matrix_array_non_flexible :
+  forall I : instance, I <> [] -> single_machine I ->
+    machines_matrix_array_code I = inl (A2 (machines_array2_spec I)).
+Proof. exact machines_matrix_array_single_machine. Qed.
+Print Assumptions C14_machines_matrix_array_non_flexible.
+
+(** The library reads [len(matrix[0][0])]: the FIRST job must be non-empty. *)
+Theorem C14_machines_matrix_array_flexible :
+  forall (I : instance) o0 t0 t, I = (o0 :: t0) :: t -> is_flexible I = true ->
+    machines_matrix_array_code I = inl (A3 (machines_array3_spec I)).
+Proof. exact machines_matrix_array_flexible. Qed.
+Print Assumptions C14_machines_matrix_array_flexible.
+
+(** * 4. Per-machine views, loads, maxima, totals *)
+
+Theorem C14_operations_by_machine :
+  forall I : instance, has_machines I ->
+    operations_by_machine_code I = inl (map (obm_spec I) (seq 0 (num_machines I))).
+Proof. exact operations_by_machine_spec. Qed.
+Print Assumptions C14_operations_by_machine.
+
+Theorem C14_machine_loads :
+  forall I : instance, has_machines I ->
+    machine_loads_code I = inl (map (load_spec I) (seq 0 (num_machines I))).
+Proof. exact machine_loads_spec. Qed.
+Print Assumptions C14_machine_loads.
+
+Theorem C14_max_duration_per_machine :
+  forall I : instance, has_machines I ->
+    max_duration_per_machine_code I = inl (map (maxdur_machine_spec I) (seq 0 (num_machines I))).
+Proof. exact max_duration_per_machine_spec. Qed.
+Print Assumptions C14_max_duration_per_machine.
+
+Theorem C14_max_duration :
+  forall I : instance,
+    (forall x, max_duration_code I = inl x -> is_max (all_durations I) x) /\
+    (I <> [] -> Forall (fun job => job <> []) I -> exists x, max_duration_code I = inl x).
+Proof. intros I. split; [exact (max_duration_spec I)|exact (max_duration_defined I)]. Qed.
+Print Assumptions C14_max_duration.
+
+Theorem C14_max_duration_per_job :
+  forall I : instance,
+    (forall l, max_duration_per_job_code I = inl l ->
+               Forall2 (fun job x => is_max (map duration job) x) I l) /\
+    (Forall (fun job => job <> []) I -> exists l, max_duration_per_job_code I = inl l).
+Proof. intros I. split; [exact (max_duration_per_job_spec I)|exact (max_duration_per_job_defined I)]. Qed.
+Print Assumptions C14_max_duration_per_job.
+
+Theorem C14_total_duration : forall I : instance, total_duration_code I = sumZ (all_durations I).
+Proof. exact total_duration_spec. Qed.
+Print Assumptions C14_total_duration.
+
+(** * 5. Round trips of the instance *)
+
+(** [from_matrices (to_dict X) = X]: operations with their machine lists,
+    name and metadata (opaque values of arbitrary types). *)
+Theorem C14_dict_roundtrip :
+  forall (Nm Md : Type) (X : inst_obj Nm Md),
+    is_flexible (io_jobs X) = true \/ single_machine (io_jobs X) ->
+    exists D, to_dict X = inl D /\ from_matrices D = inl X.
+Proof. exact from_matrices_to_dict. Qed.
+Print Assumptions C14_dict_roundtrip.
+
+(** Token level: a file is a list of comment lines / integer rows; Python's
+    strip/split/int are trusted lexing. [print_taillard] is the spec-level
+    printer (the library has no writer). Irregular job lengths are allowed. *)
+Theorem C14_taillard_roundtrip :
+  forall (c : nat) (I : instance), single_machine I -> parse_taillard (print_taillard c I) = I.
+Proof. exact parse_print_taillard. Qed.
+Print Assumptions C14_taillard_roundtrip.
+
+Theorem C14_taillard_comments_anywhere :
+  forall ls : list tline, parse_taillard ls = parse_taillard (drop_comments ls).
+Proof. exact parse_ignores_comments. Qed.
+Print Assumptions C14_taillard_comments_anywhere.
+
+(** * 6. Schedules: rebuilt from job sequences / from the dictionary *)
+
+(** For every observer configuration, filter list and request list (accepted
+    or not): if the resulting schedule is complete, rebuilding it from its
+    per-machine job sequences gives the identical schedule. *)
+Theorem C14_job_sequences_roundtrip :
+  forall (I : instance) (fs : list fname) (rs : list request),
+    valid I -> single_machine I ->
+    is_complete I (sched (core (run_reqs obs o_update I fs rs))) = true ->
+    from_job_sequences I (job_sequences (sched (core (run_reqs obs o_update I fs rs)))) =
+    FOk (sched (core (run_reqs obs o_update I fs rs))).
+Proof. exact (run_reqs_rebuilt obs o_update). Qed.
+Print Assumptions C14_job_sequences_roundtrip.
+
+Theorem C14_schedule_dict_roundtrip :
+  forall (Nm Md Sm : Type) (I : instance) (fs : list fname) (rs : list request) (nm : Nm) (md : Md) (sm : Sm),
+    valid I -> single_machine I ->
+    is_complete I (sched (core (run_reqs obs o_update I fs rs))) = true ->
+    exists D,
+      sched_to_dict (mkso (mkio I nm md) (sched (core (run_reqs obs o_update I fs rs))) sm) = inl D /\
+      sched_from_dict D = FDOk (mkso (mkio I nm md) (sched (core (run_reqs obs o_update I fs rs))) sm).
+Proof. exact (run_reqs_dict_roundtrip obs o_update). Qed.
+Print Assumptions C14_schedule_dict_roundtrip.
+
+(** The key lemma: a dispatcher-built schedule is determined by its
+    per-machine job sequences. *)
+Theorem C14_semi_active_unique :
+  forall (I : instance) (fs : list fname) (rs : list request) (fs' : list fname) (rs' : list request),
+    valid I -> single_machine I ->
+    is_complete I (sched (core (run_reqs obs o_update I fs rs))) = true ->
+    is_complete I (sched (core (run_reqs obs o_update I fs' rs'))) = true ->
+    job_sequences (sched (core (run_reqs obs o_update I fs rs))) =
+    job_sequences (sched (core (run_reqs obs o_update I fs' rs'))) ->
+    sched (core (run_reqs obs o_update I fs rs)) = sched (core (run_reqs obs o_update I fs' rs')).
+Proof. exact (semi_active_unique obs o_update). Qed.
+Print Assumptions C14_semi_active_unique.
+
+(** * 7. from_job_sequences on ARBITRARY sequences (any integers, any shape) *)
+
+(** Never a hang: [num_ops I] passes of fuel (a fortiori the [num_ops I + 1]
+    that [from_job_sequences] supplies) are never exhausted. *)
+Theorem C14_fuel_suffices :
+  forall (I : instance) (seqs : list (list Z)) (fuel : nat),
+    valid I -> (num_ops I <= fuel)%nat -> from_job_sequences_fuel I fuel seqs <> FOutOfFuel.
+Proof. exact from_job_sequences_never_out_of_fuel. Qed.
+Print Assumptions C14_fuel_suffices.
+
+(** Accepted => feasible and complete; rejected => IndexError (ill-formed
+    ids / a job listed too often) or ValidationError; never out of fuel. *)
+Theorem C14_accepted_feasible :
+  forall (I : instance) (seqs : list (list Z)), valid I ->
+    match from_job_sequences I seqs with
+    | FOk rows => feasible I rows /\ complete I rows
+    | FErr e => e = EIndex \/ e = EValidation
+    | FOutOfFuel => False
+    end.
+Proof. exact from_job_sequences_sound. Qed.
+Print Assumptions C14_accepted_feasible.
+
+(** * 8. Accepted exactly when the precedence order has no cycle
+
+    [linearises I P L] (spec/ViewsSpec.v): [L] is a total order of all
+    operations that respects the job order and whose restriction to every
+    machine, read as job ids, is [P[m]] — a linear extension of
+    "job order ∪ machine order of P". For sequences of the right shape
+    (one row per machine, N entries in total):
+
+        accepted  <->  such a linear extension exists,
+
+    and then the result is the schedule obtained by dispatching in that order.
+
+    PARTIAL with respect to the wording "the precedence graph of P is
+    acyclic": what is proved is the equivalence with the EXISTENCE OF A LINEAR
+    EXTENSION. The missing step is the order-theoretic fact that a finite
+    relation is acyclic ([clos_trans] irreflexive) iff it has a linear
+    extension (topological sort), together with the decoding of the k-th
+    occurrence of a job id in [P[m]] into an operation that is needed to state
+    the machine order without [L]. Also not proved here: for true per-machine
+    permutations the rejection is always the ValidationError, never the
+    IndexError (only "IndexError or ValidationError", theorem above); the
+    harness checks that part on every deadlocking permutation it generates.
+    Zero durations: a cyclic [P] may still admit a schedule that is feasible
+    in the weak sense (all operations of the cycle at one instant); the
+    library rejects it, and it is the acyclicity reading that is formalised. *)
+Theorem C14_accept_iff_acyclic_partial :
+  forall (I : instance) (P : list (list nat)),
+    valid I -> single_machine I ->
+    length P = num_machines I -> sumN (map (@length nat) P) = num_ops I ->
+    ((exists rows, from_job_sequences I (map (map Z.of_nat) P) = FOk rows) <->
+     (exists L, linearises I P L)).
+Proof.
+  intros I P Hv Hs Hl Hn. split.
+  - intros [rows H]. destruct (accept_only_if_linearisable I Hv Hs P rows Hl Hn H) as (h & d & _ & _ & HL). eauto.
+  - intros [L HL]. destruct (accept_if_linearisable I Hv Hs P L HL) as (h & d & _ & _ & H). eauto.
+Qed.
+Print Assumptions C14_accept_iff_acyclic_partial.
+
+(** The accepted schedule is the one built by dispatching along the linear
+    extension; no shape hypothesis is needed in this direction. *)
+Theorem C14_linear_extension_accepted :
+  forall (I : instance) (P : list (list nat)) (L : list (nat * nat)),
+    valid I -> single_machine I -> linearises I P L ->
+    exists h d, Hist I h d /\ map key h = L /\
+                from_job_sequences I (map (map Z.of_nat) P) = FOk (sched d).
+Proof. intros I P L Hv Hs. exact (accept_if_linearisable I Hv Hs P L). Qed.
+Print Assumptions C14_linear_extension_accepted.
+
+(** * Non-vacuity *)
+
+(** a flexible, irregular instance with a zero duration, an unused machine id
+    (1) and a machine listed twice *)
+Definition exF : instance :=
+  [[mkop [0%nat; 2%nat] 3; mkop [2%nat] 0; mkop [3%nat; 3%nat] 2]; [mkop [2%nat] 4]].
+Example C14_views_nonvacuous :
+  has_machines_b exF = true /\ is_flexible exF = true /\
+  set_operation_attributes exF = [[mkattrs 0 0 0; mkattrs 0 1 1; mkattrs 0 2 2]; [mkattrs 1 0 3]] /\
+  num_machines_code exF = inl 4%nat /\
+  operations_by_machine_code exF =
+    inl [[(0, 0)]; []; [(0, 0); (0, 1); (1, 0)]; [(0, 2); (0, 2)]]%nat /\
+  machine_loads_code exF = inl [3; 0; 7; 4] /\
+  max_duration_per_machine_code exF = inl [3; 0; 4; 2] /\
+  max_duration_code exF = inl 4 /\
+  machines_matrix_array_code exF =
+    inl (A3 [[[Some 0; Some 2]; [Some 2; None]; [Some 3; Some 3]];
+             [[Some 2; None]; [None; None]; [None; None]]]%nat) /\
+  (exists D, to_dict (mkio exF 7 8) = inl D /\ from_matrices D = inl (mkio exF 7 8)).
+Proof. vm_compute. repeat split; try reflexivity. eexists; split; reflexivity. Qed.
+
+(** a non-flexible instance with recirculation and zero durations; a request
+    list with rejected requests; the complete schedule is rebuilt *)
+Definition exS : instance :=
+  [[mkop [0%nat] 3; mkop [1%nat] 0; mkop [0%nat] 2]; [mkop [1%nat] 4; mkop [0%nat] 0]].
+Definition exS_rs : list request :=
+  [mkreq 0 0 None; mkreq 0 2 None; mkreq 1 0 None; mkreq 1 1 (Some 5); mkreq 0 1 None;
+   mkreq 1 1 (Some 0); mkreq 0 2 (Some 0)].
+Example C14_schedule_nonvacuous :
+  validb exS = true /\ single_machine_b exS = true /\
+  is_complete exS (sched (core (run_reqs obs o_update exS [] exS_rs))) = true /\
+  job_sequences (sched (core (run_reqs obs o_update exS [] exS_rs))) = [[0; 1; 0]; [1; 0]] /\
+  from_job_sequences exS [[0; 1; 0]; [1; 0]] = FOk [[mksop 0 0 0 0; mksop 1 1 4 0; mksop 0 2 4 0];
+                                                    [mksop 1 0 0 1; mksop 0 1 4 1]] /\
+  parse_taillard (print_taillard 2 exS) = exS.
+Proof. vm_compute. repeat split; reflexivity. Qed.
+
+(** a deadlocking permutation of zero-duration operations (a cycle through
+    both machines) is rejected with the ValidationError; an ill-formed one
+    with the IndexError; the cyclic one has no linear extension by the iff *)
+Definition exC : instance := [[mkop [1%nat] 0; mkop [0%nat] 0]; [mkop [0%nat] 0; mkop [1%nat] 0]].
+Example C14_rejections_nonvacuous :
+  from_job_sequences exC [[0; 1]; [1; 0]] = FErr EValidation /\
+  from_job_sequences exC [[1; 0]; [0; 1]] = FOk [[mksop 1 0 0 0; mksop 0 1 0 0]; [mksop 0 0 0 1; mksop 1 1 0 1]] /\
+  from_job_sequences exC [[1; 1]; [0; 1]] = FErr EIndex /\
+  from_job_sequences exC [[1; -2]; [0; -1]] = FOk [[mksop 1 0 0 0; mksop 0 1 0 0]; [mksop 0 0 0 1; mksop 1 1 0 1]] /\
+  (exists L, linearises exC [[1; 0]; [0; 1]]%nat L) /\
+  ~ (exists L, linearises exC [[0; 1]; [1; 0]]%nat L).
+Proof.
+  assert (Hv : valid exC) by (apply validb_valid; reflexivity).
+  assert (Hs : single_machine exC) by (apply single_machine_b_spec; reflexivity).
+  split; [vm_compute; reflexivity|]. split; [vm_compute; reflexivity|].
+  split; [vm_compute; reflexivity|]. split; [vm_compute; reflexivity|]. split.
+  - apply (C14_accept_iff_acyclic_partial exC [[1; 0]; [0; 1]]%nat Hv Hs eq_refl eq_refl).
+    eexists. vm_compute. reflexivity.
+  - intros H. apply (C14_accept_iff_acyclic_partial exC [[0; 1]; [1; 0]]%nat Hv Hs eq_refl eq_refl) in H.
+    destruct H as [rows H]. vm_compute in H. discriminate H.
+Qed.
